@@ -12,7 +12,9 @@ LEVEL_NOTE = ("theorems about putAll hold under every fault oracle; independence
               "depend on later arguments, arguments that leave the file system alone are transparent at any position, two "
               "trashed arguments commute at the resolved layer / in the home trash (_partial); the literal first statement "
               "is refuted by kernel-checked counterexamples; the general case is validated differentially (every argument "
-              "alone on a copy of the world)")
+              "alone on a copy of the world). C16Seq: for ANY number of arguments and every oracle the run IS the left fold of the "
+              "one-argument step, ended only by an uncaught exception; every argument is attempted; exit 0 iff no crash and every outcome is "
+              "trashed or a legitimate skip, every failed argument has its own diagnostic; N everyday arguments have the outcomes of their solo runs (_partial)")
 RULE = ("seeded random put worlds with 1-4 arguments mixing trashable entries, dot entries, missing paths, mount points, "
         "named pipes, names that are not UTF-8 or begin with '@', -f / -i with replies; each multi-argument world is also run one argument at a time "
         "on copies and the per-argument outcome (trashed / untouched, named on stderr, trash directory and recorded Path of the new "
@@ -127,6 +129,11 @@ def run(tier, seed):
     n = 300 if tier == "quick" else 5000
     results = run_tasks(eval_task, [{"pid": "C16", "seed": seed, "i": i, "cfg": CFG} for i in range(n)])
     absorb(ck, "C16", results, CFG, "Model.Put")
+    # rare ingredients made certain: a long name that is no UTF-8 among several arguments; trash directories (and what stands
+    # in their way) owned by a uid / gid nobody knows
+    for focus in ("long-nonutf8", "unknown-owner"):
+        fcfg = dict(CFG, focus=focus)
+        absorb(ck, "C16", run_tasks(eval_task, [{"pid": "C16" + focus, "seed": seed, "i": i, "cfg": fcfg} for i in range(40 if tier == "quick" else 400)]), fcfg, "Model.Put")
     solos = run_tasks(solo_task, [{"seed": seed, "i": i} for i in range(120 if tier == "quick" else 1500)] +
                       [{"seed": seed, "i": i, "forced": True} for i in range(40 if tier == "quick" else 400)])
     done = 0
